@@ -1504,6 +1504,10 @@ class Sim:
             return self._steer("F-EARLY")
         if self._self_cancel_grey(ctx, targets):
             return False
+        if any(t.early and t.task.done() for t in targets) and any(d.kind == "gather" for d in pc.act_drivers):
+            # (unsteered F-EARLY runs only) a task that was cancelled before its first step is dead but still filed as
+            # running; whether a gather_and_close() in progress has dropped it already is not observable from outside
+            return False
         self.last_cancel_prop = "C06"
         try:
             pc.pool.cancel(*ids)
